@@ -79,6 +79,12 @@ class Motion:
         self.k2 = rng.normal() * rotating
         self.w = rng.uniform(0.5, 3.0)
         self.moving, self.rotating = bool(moving), bool(rotating)
+        # uniform translation whose derivatives are handed to Frame as plain arrays (the documented non-callable form):
+        # Frame then keeps ONE array object per derivative for its whole life
+        self.array_derivatives = bool(moving) and bool(rng.random() < 0.25)
+        if self.array_derivatives:
+            self.c2 = np.zeros(3)
+            self.amp = np.zeros(3)
 
     # position
     def r(self, t):
@@ -117,10 +123,11 @@ class Motion:
         return self.axis * self.f_tt(t)
 
     def frame(self, Frame, name="frame", constant_orientation=False):
+        rt, rtt = (self.c1.copy(), np.zeros(3)) if self.array_derivatives else (self.r_t, self.r_tt)
         if constant_orientation or not self.rotating:
             A0 = self.A0
-            return Frame(r_OP=self.r, r_OP_t=self.r_t, r_OP_tt=self.r_tt, A_IB=A0, name=name)
-        return Frame(r_OP=self.r, r_OP_t=self.r_t, r_OP_tt=self.r_tt, A_IB=self.A, A_IB_t=self.A_t, A_IB_tt=self.A_tt, name=name)
+            return Frame(r_OP=self.r, r_OP_t=rt, r_OP_tt=rtt, A_IB=A0, name=name)
+        return Frame(r_OP=self.r, r_OP_t=rt, r_OP_tt=rtt, A_IB=self.A, A_IB_t=self.A_t, A_IB_tt=self.A_tt, name=name)
 
 
 def path_state(body_q_dot, t, q, u, u_dot):
